@@ -387,6 +387,25 @@ class VariationalWassersteinDistance(darsia.EMD):
         user_defined_amg_options = self.options.get("amg_options", {})
         self.amg_options.update(user_defined_amg_options)
 
+    def _smoothed_aggregation_solver(self, matrix: sps.csc_matrix):
+        """Build the AMG hierarchy for the given matrix.
+
+        pyamg draws from numpy's global random generator (initial vectors of its
+        spectral radius estimates). Use a fixed seed for reproducible hierarchies and
+        leave the random state of the caller untouched.
+
+        """
+        random_state = np.random.get_state()
+        np.random.seed(0)
+        try:
+            with warnings.catch_warnings():
+                warnings.filterwarnings(
+                    "ignore", message="Implicit conversion of A to CSR"
+                )
+                return pyamg.smoothed_aggregation_solver(matrix, **self.amg_options)
+        finally:
+            np.random.set_state(random_state)
+
     def setup_amg_solver(self, matrix: sps.csc_matrix) -> None:
         """Setup an AMG solver for the given matrix.
 
@@ -400,11 +419,7 @@ class VariationalWassersteinDistance(darsia.EMD):
         """
         # Define AMG solver
         self.setup_amg_options()
-        with warnings.catch_warnings():
-            warnings.filterwarnings("ignore", message="Implicit conversion of A to CSR")
-            self.linear_solver = pyamg.smoothed_aggregation_solver(
-                matrix, **self.amg_options
-            )
+        self.linear_solver = self._smoothed_aggregation_solver(matrix)
 
         # Define solver options
         linear_solver_options = self.options.get("linear_solver_options", {})
@@ -438,11 +453,7 @@ class VariationalWassersteinDistance(darsia.EMD):
 
         # Define AMG preconditioner
         self.setup_amg_options()
-        with warnings.catch_warnings():
-            warnings.filterwarnings("ignore", message="Implicit conversion of A to CSR")
-            amg = pyamg.smoothed_aggregation_solver(
-                matrix, **self.amg_options
-            ).aspreconditioner(cycle="V")
+        amg = self._smoothed_aggregation_solver(matrix).aspreconditioner(cycle="V")
 
         # Define solver options
         linear_solver_options = self.options.get("linear_solver_options", {})
